@@ -381,7 +381,12 @@ func vfGenUpstream(t *rapid.T) *vfUp {
 	for i := 0; i < nTXT; i++ {
 		big = append(big, fmt.Sprintf("big.example.org. %d IN TXT \"%s%d\"", ttl("ttl.big"), strings.Repeat("x", 220), i))
 	}
-	u.table[vfUpKey("big.example.org.", dns.TypeTXT)] = &vfUpAnswer{Scope: -1, Answer: big}
+	bigA := &vfUpAnswer{Scope: -1, Answer: big}
+	if rapid.Bool().Draw(t, "big.extra") {
+		bigA.Extra = []string{"glue1.example.org. 300 IN A 192.0.2.201", "glue2.example.org. 300 IN AAAA 2001:db8::201"}
+		bigA.Ns = []string{"example.org. 300 IN NS glue1.example.org."}
+	}
+	u.table[vfUpKey("big.example.org.", dns.TypeTXT)] = bigA
 	// failures
 	var failEDE []uint16
 	if rapid.Bool().Draw(t, "fail.ede") {
@@ -421,6 +426,28 @@ func vfGenConfig(t *rapid.T, dir string) *config.Config {
 	}
 	cfg.EmptyZones = []string{"10.in-addr.arpa."}
 	cfg.Chaos = rapid.Bool().Draw(t, "cfg.chaos")
+	return cfg
+}
+
+type vfC05Params struct {
+	Cookie, NSID, Chaos bool
+	ClientRate          int
+	EntryRate           int
+	RFC8198, RFC9520    bool
+}
+
+func vfC05Config(dir string, p vfC05Params) *config.Config {
+	cfg := vfBaseConfig(dir)
+	if p.Cookie {
+		cfg.CookieSecret = "6c6f6f6b61686172646c6f6f6b6168617264"
+	}
+	if p.NSID {
+		cfg.NSID = "vf-nsid"
+	}
+	cfg.Chaos = p.Chaos
+	cfg.ClientRateLimit = p.ClientRate
+	cfg.RateLimit = p.EntryRate
+	cfg.EmptyZones = []string{"10.in-addr.arpa."}
 	return cfg
 }
 
